@@ -28,7 +28,7 @@ REPO = "/repo"
 
 # file -> (checks to run in order, regex of top-level class / function names to mutate or None for all)
 MAP = {
-    "mpgameserver/connection.py": (["C05", "C07", "C04", "C06", "C09", "C08", "C03", "C01", "C02", "C12", "C10", "C11", "C14"], None),
+    "mpgameserver/connection.py": (["C08", "C05", "C09", "C07", "C04", "C06", "C03", "C01", "C02", "C12", "C10", "C11"], None),
     "mpgameserver/server.py": (["C10", "C11", "C12", "C05", "C01", "C02", "C09"], None),
     "mpgameserver/twisted.py": (["C10", "C11", "C12", "C05", "C01", "C02"], None),
     "mpgameserver/client.py": (["C12", "C02", "C05", "C01", "C10", "C03"], None),
